@@ -259,6 +259,8 @@ func NewFullRT(h host.Host, protocolPrefix protocol.ID, options ...Option) (*Ful
 		bulkSendParallelism:         fullrtcfg.bulkSendParallelism,
 		self:                        self,
 		peerConnectednessSubscriber: sub,
+
+		ipDiversityFilterLimit: fullrtcfg.ipDiversityFilterLimit,
 	}
 
 	rt.wg.Add(2)
